@@ -583,6 +583,9 @@ def spec_function_lemmas(hyps, goal, nonlinear=True):
         extra.append(z3.Implies(z3.And(y > 0, x >= 0), t >= 0))
         extra.append(z3.Implies(z3.And(y > 0, x <= 0), t <= 0))
         extra.append(z3.Implies(z3.And(y != 0, x == 0), t == 0))
+        extra.append(z3.Implies(z3.And(y > 0, x <= y), t <= 1))
+        extra.append(z3.Implies(z3.And(y > 0, x >= y), t >= 1))
+        extra.append(z3.Implies(z3.And(y != 0, x == y), t == 1))
         if z3.is_app(y) and y.decl().kind() == z3.Z3_OP_MUL and y.num_args() == 2:
             p, q = y.arg(0), y.arg(1)
             extra.append(z3.Implies(z3.And(p != 0, q != 0), t == _rdiv(_rdiv(x, p), q)))
